@@ -284,7 +284,7 @@ void lazyArrayT(Case& c, unsigned nops) {
       a.destroy(i);
       m[i].reset();
     }
-  c.lastOp = "final-destroy";
+  c.phase("final-destroy");
   c.lifetimesOk(tracked ? 0 : -1);
 }
 
@@ -343,7 +343,7 @@ void lazyObjectT(Case& c, unsigned nops) {
   }
   if (m)
     o.destroy();
-  c.lastOp = "final-destroy";
+  c.phase("final-destroy");
   c.lifetimesOk(tracked ? 0 : -1);
   // void specialisation and StrictObject
   galois::LazyObject<void> lv;
@@ -461,7 +461,7 @@ void optionalT(Case& c, unsigned nops) {
       check(*op, m, m.has_value());
       c.sawSize(m.has_value() ? 2 : 1, 0);
     }
-    c.lastOp = "destructor";
+    c.phase("destructor");
   }
   c.lifetimesOk(tracked ? 0 : -1);
 }
@@ -613,7 +613,7 @@ void largeArrayT(Case& c, unsigned n, unsigned nops) {
       }
       check(*ap, m, (long)m.size());
     }
-    c.lastOp = "destructor";
+    c.phase("destructor");
   }
   c.lifetimesOk(tracked ? 0 : -1);
 }
